@@ -78,6 +78,15 @@ Section Table.
     serve_handler peqb (https_provider_handler (config_of peqb calls) mw) m p = expected peqb calls mw m p.
   Proof. apply (serve_expected peqb peqb_spec). apply Permutation_refl. Qed.
 
+  (* Configuration SEQUENCES.  For every sequence of calls on a listener's config object or builder —
+     AddRoute, SetMiddleware/UsingMiddleWare and the read accessors GetRoutes/GetMiddleware in ANY positions —
+     the provider built afterwards serves exactly what the AddRoute calls (in order, getters ignored) and the
+     LAST configured middleware say: read accessors never change what is served. *)
+  Theorem C17_config_sequence (ops : list (@cfg_op P H)) (t : list ((Z * P) * H)) m p :
+    Permutation t (build_table (c_routes (cfg_run peqb ops)) (c_mw (cfg_run peqb ops))) ->
+    serve peqb t m p = expected peqb (adds_of ops) (mw_of_ops ops) m p.
+  Proof. exact (serve_cfg_expected peqb peqb_spec ops t m p). Qed.
+
   (* [expected] read in the property's words: a request is served iff its (method, path) was
      registered (or it is a HEAD for a registered GET path with no HEAD route of its own), and then by
      exactly the handler registered LAST for that pair, wrapped in the configured middleware... *)
@@ -164,6 +173,7 @@ Print Assumptions C17_logging_is_identity_up_to_R.
 Print Assumptions C17_table.
 Print Assumptions C17_table_http.
 Print Assumptions C17_table_https.
+Print Assumptions C17_config_sequence.
 Print Assumptions C17_served_exactly.
 Print Assumptions C17_others_rejected.
 Print Assumptions C17_end_to_end.
